@@ -37,7 +37,8 @@ def judge(case, seq, data, exc, acc) -> None:
                           {**case, "reader": reader})
         elif (reader == "flat" and len(got) != len(expect)
               and case["writer"] not in ("stream_frames_gen", "flat_to_frames", "flat_to_file",
-                                         "flat_to_file_default")):
+                                         "flat_to_file_default", "stream_frames_list",
+                                         "flat_to_frames_iter")):
             acc.violation({**sig, "fail": "duplicates", "reader": reader},
                           f"flat parser yields {len(got)} statements for {len(expect)} distinct "
                           f"ones case={case}", {**case, "reader": reader})
